@@ -330,7 +330,7 @@ def main():
                                  "engines.core.EngineBase subclasses (recorder, trap)"],
            "samples": samples[:10], "exhaustive": False}
     assumptions = ["engine kinds: NumPy (symbolic arrays), CasADi SX, CasADi MX, Trap (every method records and fails)", "selection sequences are plainly enumerated (length <= 3 over 8 choices)",
-                   "CrossHair bound: len(name) <= 7; 'Confirmed over all paths' required"]
+                   "CrossHair bound: len(name) <= 10; 'Confirmed over all paths' required"]
     harness.finish(args, "model_checking", cov, assumptions, viol, inc, t0)
 
 
